@@ -298,6 +298,61 @@ def c11_zero_value_with_the_other_two_accepted():
     return all(r == "config-error" for r in res), res
 
 
+_BASE = "[Tabulation]\ntarget: GULP\nnr: 5\ncutoff: 3.0\n"
+
+
+def _write(txt):
+    t = _tab(txt)
+    t.write(io.StringIO())
+    return "written"
+
+
+@demo
+def c16_spline_with_modifier_as_first_part():
+    o = _outcome(lambda: _write(_BASE + "[Pair]\nA-B : spline(sum(as.buck 1000 0.3 0, as.zero) >0.8 exp_spline >1.4 as.zero)\n"))
+    return o[0] == "returned", o
+
+
+@demo
+def c16_spline_with_modifier_as_middle_part():
+    o = _outcome(lambda: _write(_BASE + "[Pair]\nA-B : spline(as.buck 1000 0.3 0 >0.8 sum(as.zero,as.zero) >1.4 as.zero)\n"))
+    return o[0] == "config-error", o
+
+
+@demo
+def c16_table_form_given_parameters():
+    o = _outcome(lambda: _write(_BASE + "[Table-Form:t]\nx: 0 1 2 3 4\ny: 0 1 2 3 4\n[Pair]\nA-B : t 1.0\n"))
+    return o[0] == "config-error", o
+
+
+@demo
+def c16_table_form_unusable_data():
+    a = _outcome(lambda: _write(_BASE + "[Table-Form:t]\nx: 0 1 2\ny: 0 1 2\n[Pair]\nA-B : t\n"))
+    b = _outcome(lambda: _write(_BASE + "[Table-Form:t]\nx: 0 2 1 3 4\ny: 0 1 2 3 4\n[Pair]\nA-B : t\n"))
+    return a[0] == "config-error" and b[0] == "config-error", (a, b)
+
+
+@demo
+def c20_table_form_named_like_buck4():
+    o = _outcome(lambda: _write(_BASE + "[Table-Form:as.buck4]\nx: 0 1 2 3 4\ny: 0 1 2 3 4\n[Pair]\nA-B : as.buck4\n"))
+    return o[0] == "config-error", o
+
+
+@demo
+def c15_variable_named_like_an_option():
+    a = _cfg("[Variables]\ncutoff: 7.0\n[Tabulation]\nnr: 5\n[Pair]\nA-B: as.zero\n").tabulation.cutoff
+    b = _outcome(lambda: _write("[Variables]\ninterpolation: foo\n" + _BASE + "[Table-Form:t]\nx: 0 1 2 3 4\ny: 0 1 2 3 4\n[Pair]\nA-B : t\n"))
+    return a is None and b[0] == "returned", ("unused variable 'cutoff' changes [Tabulation].cutoff to %r" % a, b)
+
+
+@demo
+def c14_add_item_to_variables():
+    from atsim.potentials.config import ConfigParserOverrideTuple as T
+    o = _outcome(lambda: ConfigParser(io.StringIO("[Variables]\nq:1\n[Pair]\nA-B: as.constant ${q}\n"),
+                                      additional=[T("Variables", "z", "2")]).raw_config_parser["Variables"]["z"])
+    return o == ("returned", "2"), o
+
+
 if __name__ == "__main__":
     want = sys.argv[1:]
     nbad = 0
